@@ -1444,7 +1444,7 @@ pub fn gen_sibling_pairs(prop: &str, seed: u64) -> Case {
     let mut rng = Rng::new(seed, 0x51b);
     let mut case = Case::new(prop, "direct-sibling-positions", seed, Mode::Direct);
     direct_params(&mut case, 400_000);
-    if rng.chance(1, 5) {
+    if rng.chance(1, 3) {
         // histories that take a castling right away while king and rook end up at home
         case.family = "direct-castling-rights-histories".into();
         let (root, line) = *rng.pick(RIGHTS_LINES);
